@@ -139,6 +139,10 @@ class Embedding:
         myokit.lib.guess.add_embedded_protocol = self.orig
 
 
+class BadEmbedding(Exception):
+    pass
+
+
 class Ref:
     """Myokit's own reading of the file: protocol embedded on a clone (myokit.lib.guess), unique names"""
 
@@ -155,6 +159,10 @@ class Ref:
                         model = model.clone()
                         self.embedded = bool(myokit.lib.guess.add_embedded_protocol(model, protocol))
                     self.protocol = protocol
+                    try:
+                        model.validate()
+                    except Exception as e:  # noqa: BLE001 - Myokit's stimulus guess can produce an illegal reference
+                        raise BadEmbedding(str(e)) from None
             else:
                 model = myokit.formats.cellml.CellMLImporter().model(path)
             model.validate()
@@ -303,7 +311,7 @@ def name_construct(ref: Ref, v):
     return f"{where}-{'reserved' if v.uname() in gm.reserved_names else 'renamed'}-name"
 
 
-def construct(ref: Ref, variables, deep=True):
+def construct(ref: Ref, variables, deep=True, vals=None):
     """names the construct behind a wrong value of `variables`: a nested variable whose gotranx name differs from the
     name written in the expressions (the import has to substitute it), then the time variable, then the highest-priority
     Myokit operator; deep: over the whole dependency closure, else over the expressions of `variables` alone"""
@@ -318,11 +326,19 @@ def construct(ref: Ref, variables, deep=True):
     types = set()
     neg = {myokit.Less: myokit.MoreEqual, myokit.More: myokit.LessEqual, myokit.LessEqual: myokit.More, myokit.MoreEqual: myokit.Less,
            myokit.Equal: myokit.NotEqual, myokit.NotEqual: myokit.Equal}
+    edge = set()  # comparisons whose operands are equal at this point: only there <, <=, == differ
     for v in (cl if deep else variables):
         for e in v.rhs().walk():  # not (a < b) is a >= b for SymPy
-            types.add("log2" if isinstance(e, myokit.Log) and len(e) == 2 else neg[type(e[0])] if isinstance(e, myokit.Not) and type(e[0]) in neg else type(e))
+            t = "log2" if isinstance(e, myokit.Log) and len(e) == 2 else neg[type(e[0])] if isinstance(e, myokit.Not) and type(e[0]) in neg else type(e)
+            types.add(t)
+            r = e[0] if isinstance(e, myokit.Not) else e
+            try:
+                if vals is not None and isinstance(r, RELS) and float(r[0].eval(vals)) == float(r[1].eval(vals)):
+                    edge.add(t)
+            except Exception:  # noqa: BLE001
+                pass
     for k, t in OP_PRIORITY:
-        if t in types:
+        if t in (edge or types):
             return k
     return "plain"
 
@@ -410,6 +426,9 @@ def check_myokit(case, res, d):
             imp_exc = e
     try:
         ref = Ref(path, kind, emb.got)
+    except BadEmbedding:
+        cm.note(res, "model-skipped-because-myokit-embedded-the-protocol-into-an-invalid-model")
+        return res
     except Exception as e:  # noqa: BLE001 - Myokit itself rejects the file: the generator's fault
         res["errors"].append(f"myokit rejects {'generated model ' + str({k: case[k] for k in ('micro', 'gseed') if k in case}) if text else path}: {cm.exc_name(e)}: {cm.short(e)}")
         return res
@@ -579,7 +598,7 @@ def reload_and_compare(case, res, ref, ode, d, base_inp, pts, key, add):
                if not cm.close(got[mod["state_index"](nm[v])], want[v.qname()], 1e-7, 1e-12 * scale)}
         if bad:
             first = culprit(ref, mod, vals, scale, pt["t"], s, np.array(p0))
-            kind = construct(ref, first, deep=False) if first else construct(ref, list(bad))
+            kind = construct(ref, first, deep=False, vals=vals) if first else construct(ref, list(bad))
             v0 = sorted(bad, key=lambda v: v.qname())[0]
             where = f"first wrong variable(s): {[v.qname() + ' = ' + v.rhs().code()[:100] for v in first]} | " if first else ""
             add(f"C15:rhs-differs:{kind}", f"d{nm[v0]}_dt of the reloaded model differs from Myokit's dot({v0.qname()}) = {v0.rhs().code()[:120]}", inp,
